@@ -98,6 +98,39 @@ class CallMixin:
         finally:
             self.bound_vars = saved
         if kind == "all":
+            # forall k in [lo, t+1): P(k)  ==  forall k in [lo, t): P(k)  and  (lo <= t -> P(t)).  Splitting off the last
+            # element (the one a loop iteration has just produced) is what makes invariant-preservation goals easy.
+            for gi, v in enumerate(bvs):
+                lo_g, hi_g = guards[2 * gi], guards[2 * gi + 1]
+                if len(guards) != 2 * len(bvs):
+                    break
+                hi_t = z3.simplify(hi_g.arg(1))
+                last = _minus_one(hi_t)
+                if last is None:
+                    continue
+                lo_t = lo_g.arg(1)
+                others = [g for j, g in enumerate(guards) if j not in (2 * gi, 2 * gi + 1)]
+                rest_bvs = [b for b in bvs if b is not v]
+                inst_body = z3.substitute(body, (v, last))
+                inst_guards = [z3.substitute(g, (v, last)) for g in others]
+                if rest_bvs:
+                    p2 = choose_patterns(rest_bvs, inst_body)
+                    inst = z3.ForAll(rest_bvs, z3.Implies(z3.And(*inst_guards) if inst_guards else z3.BoolVal(True), inst_body),
+                                     **({"patterns": p2} if p2 else {}))
+                else:
+                    inst = inst_body
+                guards2 = list(guards)
+                guards2[2 * gi + 1] = v < last
+                pats = choose_patterns(bvs, body)
+                main = z3.ForAll(bvs, z3.Implies(z3.And(*guards2), body), **({"patterns": pats} if pats else {}))
+                return z3.And(main, z3.Implies(lo_t <= last, inst))
+            pats = choose_patterns(bvs, body)
+            if pats:
+                try:
+                    return z3.ForAll(bvs, z3.Implies(z3.And(*guards), body), patterns=pats)
+                except z3.Z3Exception:
+                    import sys
+                    print("invalid pattern", pats, file=sys.stderr)
             return z3.ForAll(bvs, z3.Implies(z3.And(*guards), body))
         return z3.Exists(bvs, z3.And(*(guards + [body])))
 
@@ -133,10 +166,8 @@ class CallMixin:
                 h = st.heap[a.cell]
                 key.append(("arr", a.dt, tuple(x.get_id() for x in (h if isinstance(h, tuple) else (h,))),
                             tuple(str(s) for s in a.shape), tuple(str(s) for s in a.fixed)))
-            elif isinstance(a, (int, str, bool)) or a is None:
+            elif isinstance(a, str) or a is None:
                 key.append(("c", a))
-            elif is_float(a) and not self.scalar_is_symbolic(a):
-                key.append(("cf", str(a.v)))
             else:
                 scal.append((p, a))
                 key.append(("s", p))
@@ -542,6 +573,7 @@ class _NoInv:
     def __init__(self, c):
         self._c = c
         self.invariants = {}
+        self.afters = {}
         self.unroll = {}
         self.options = c.options if c is not None else {}
         self.assigns = c.assigns if c is not None else None
@@ -558,3 +590,86 @@ def _heap_eq(h1, h2):
         elif not a.eq(b):
             return False
     return True
+
+
+_ARITH = (z3.Z3_OP_ADD, z3.Z3_OP_SUB, z3.Z3_OP_MUL, z3.Z3_OP_UMINUS, z3.Z3_OP_IDIV, z3.Z3_OP_DIV, z3.Z3_OP_MOD,
+          z3.Z3_OP_ITE, z3.Z3_OP_TO_REAL, z3.Z3_OP_TO_INT)
+
+
+def choose_patterns(bvs, body):
+    """explicit e-matching triggers for a universally quantified clause: array reads / function applications that
+    mention the bound variables without interpreted arithmetic in between (z3's automatic choice misses them on the
+    larger invariants)"""
+    ids = {b.get_id(): i for i, b in enumerate(bvs)}
+    cands = []
+    seen = set()
+
+    def walk(t):
+        """-> (set of bound var indexes in t, True if t is 'clean': bound vars reachable without arithmetic)"""
+        if t.get_id() in ids:
+            return {ids[t.get_id()]}, True
+        if z3.is_quantifier(t):
+            return set(), False
+        if not z3.is_app(t):
+            return set(), True
+        vs, clean = set(), True
+        for ch in t.children():
+            v2, c2 = walk(ch)
+            vs |= v2
+            if v2 and not c2:
+                clean = False
+        k = t.decl().kind()
+        if vs and k in _ARITH:
+            clean = False
+        if vs and clean and k in (z3.Z3_OP_SELECT, z3.Z3_OP_UNINTERPRETED) and t.num_args() > 0 and t.get_id() not in seen \
+                and not _forbidden_in_pattern(t):
+            seen.add(t.get_id())
+            cands.append((t, frozenset(vs)))
+        return vs, clean
+    walk(body)
+    allv = frozenset(range(len(bvs)))
+    full = [t for t, vs in cands if vs == allv]
+    if full:
+        full.sort(key=lambda t: len(str(t)))
+        return full[:4]
+    # greedy multi-pattern
+    chosen, covered = [], set()
+    for t, vs in sorted(cands, key=lambda c: (-len(c[1]), len(str(c[0])))):
+        if not vs <= covered:
+            chosen.append(t)
+            covered |= vs
+        if covered == allv:
+            return [z3.MultiPattern(*chosen)] if len(chosen) > 1 else chosen
+    return None
+
+
+_FORBID = (z3.Z3_OP_ITE, z3.Z3_OP_AND, z3.Z3_OP_OR, z3.Z3_OP_NOT, z3.Z3_OP_IMPLIES, z3.Z3_OP_EQ, z3.Z3_OP_LE, z3.Z3_OP_LT,
+           z3.Z3_OP_GE, z3.Z3_OP_GT, z3.Z3_OP_DISTINCT, z3.Z3_OP_XOR)
+_forbid_cache = {}
+
+
+def _forbidden_in_pattern(t):
+    k = t.get_id()
+    if k in _forbid_cache:
+        return _forbid_cache[k]
+    r = False
+    if z3.is_quantifier(t):
+        r = True
+    elif z3.is_app(t):
+        if t.decl().kind() in _FORBID:
+            r = True
+        else:
+            r = any(_forbidden_in_pattern(c) for c in t.children())
+    _forbid_cache[k] = r
+    return r
+
+
+def _minus_one(t):
+    """if t is syntactically  x + 1  return x, else None"""
+    if z3.is_app(t) and t.decl().kind() == z3.Z3_OP_ADD and t.num_args() >= 2:
+        args = list(t.children())
+        for i, a in enumerate(args):
+            if z3.is_int_value(a) and a.as_long() == 1:
+                rest = args[:i] + args[i + 1:]
+                return rest[0] if len(rest) == 1 else z3.Sum(*rest)
+    return None
